@@ -26,12 +26,19 @@ P = {
  "C10": ("real Split::next / SplitN::next (limits 0..5) over the symbolic VM: pieces equal the substrings between the find_iter matches of the same path plus the tail, contiguous cover of the text, splitn = min(n, pieces) items with the untouched remainder last", "2 C10"),
  "C11": ("real try_replacen over the symbolic VM, limits 0..3, replacers NoExpand / plain string / closure / <$0>: output equals the model built from the matches of the same path, borrowed iff no match, the three $-free replacers agree, search errors come back as Err", "2 C11"),
  "C16": ("concretely per pattern: captures_len == 1 + groups == capture_names().count(), names at their indices; on every symbolic path: Captures::len == captures_len, iter() == get(i), get(0) Some, get(i>=len) None, name(n) == get(index) -- for VM-compiled and wrapped patterns", "2 C16"),
+ "C12": ("TEMPLATE: the real template scanner (Expander::exec, check, escape, parse_id, parse_decimal; rules T1-T20 make them generic over the string type) runs on a symbolic template of at most N bytes (4 quick, 6 thorough) against real captures (9 regexes: numbered, named, mixed, unmatched, >= 10 groups, wrapped and VM): expansion through all five entry points equals the documented interpretation (props4.rs reference scanner), check accepts only templates whose references exist, expand(escape(s)) == s; both expanders", "2 C12"),
  "C20": ("shadow whole-state-copy model (slots, auxiliary stack, alternatives) compared with the real State after every push/pop/save/cut inside the real run, on every feasible operation history the corpus programs generate; counterexample histories are replayed through the cfg-guarded VState wrapper on the real build", "2 C20"),
 }
 
 checks = []
 for pid in sorted(P):
     text, ref = P[pid]
+    lead = "Bounded symbolic execution of the repository's real vm.rs (N=3 bytes quick, 5 thorough; z3 decides every branch, closing coverage query per exploration): "
+    tech = "symbolic execution of the real VM source with z3 over all texts <= N bytes, per concrete pattern; oracle under the same path condition; native replay"
+    if text.startswith("TEMPLATE: "):
+        text = text[len("TEMPLATE: "):]
+        lead = "Bounded symbolic execution of the repository's real expand.rs / parse_id / parse_decimal (z3 decides every branch, closing coverage query per exploration): "
+        tech = "symbolic execution of the real template scanner source with z3 over all templates <= N bytes, per concrete captures; reference under the same path condition; native replay"
     checks.append({
         "property_id": pid,
         "quick_cmd": "./check %s quick" % pid,
@@ -40,10 +47,10 @@ for pid in sorted(P):
         "replay_cmd_template": "./check %s --replay {path}" % pid,
         "engine": "SYMX",
         "level_claimed": {"category": "model_checking",
-                          "text": "Bounded symbolic execution of the repository's real vm.rs (N=3 bytes quick, 5 thorough; z3 decides every branch, closing coverage query per exploration): " + text,
+                          "text": lead + text,
                           "design_ref": "DESIGN.md " + ref},
         "level_note": COMMON_NOTE,
-        "technique": "symbolic execution of the real VM source with z3 over all texts <= N bytes, per concrete pattern; oracle under the same path condition; native replay",
+        "technique": tech,
     })
 
 m = {
@@ -58,12 +65,11 @@ m = {
  },
  "engines": [
   {"name": "SYMX", "path": "symx/", "serves_properties": sorted(P),
-   "kind_free_text": "dynamic symbolic execution of the real vm.rs (generic-over-text rewrite regenerated from /repo on every run), one live z3 -in per worker deciding every branch, closing coverage query, per-path concrete cross-check against the real regex-automata, native replay of counterexamples on the unmodified /repo build"}
+   "kind_free_text": "dynamic symbolic execution of the real vm.rs and of the real template scanner in expand.rs / parse.rs (generic-over-text rewrite regenerated from /repo on every run), one live z3 -in per worker deciding every branch, closing coverage query, per-path concrete cross-check against the real regex-automata, native replay of counterexamples on the unmodified /repo build"}
  ],
  "checks": checks,
  "not_applicable": [
   {"property_id": "C06", "reason": "quantifies over pattern strings; parser/analyzer/regex-automata builder cannot be executed symbolically within reach (measured, DESIGN.md 2 C06)"},
-  {"property_id": "C12", "reason": "template flows through std &str/char APIs; CBMC needs >15 min for a 2-byte template (measured, DESIGN.md 2 C12)"},
   {"property_id": "C18", "reason": "concurrency: Kani/CBMC do not model Rust threads, SYMX is single-threaded re-execution; the shared state lives in regex-automata's Pool"},
  ],
  "notes": "Known findings are in known_findings.json (status known/fixed). Exit codes: 0 held, 1 VIOLATION (reproduced natively), 2 inconclusive."
